@@ -216,6 +216,7 @@ struct Client {
       R.nodes[n->id].pub_inv = st_inv.step;
     }
     int old_id = -1;
+    const int new_id = n ? n->id : -1; // the node must not be touched any more once it is published
     GPtr old;
     {
       OpScope os;
@@ -226,7 +227,7 @@ struct Client {
         MPtr exp = old;
         if (cells[c].compare_exchange_strong(exp, MPtr(n, (uintptr_t)mark), std::memory_order_acq_rel, std::memory_order_relaxed)) break;
       }
-      cell_model[c] = GM{n ? n->id : -1, (int)mark, n};
+      cell_model[c] = GM{new_id, (int)mark, n};
       if (old.get() != nullptr) {
         old_id = old->id;
         retire(old, NG);
